@@ -27,12 +27,26 @@ impl EventLog {
     }
 
     pub fn append(&self, event: &Event) -> io::Result<()> {
+        #[cfg(feature = "verif")]
+        rip_kernel::verif::point_with("log.append.enter", || {
+            format!("{} {}", event.stream_id(), event.seq)
+        });
         let mut writer = self.writer.lock().expect("event log mutex");
+        #[cfg(feature = "verif")]
+        rip_kernel::verif::point("log.append.locked", event.stream_id());
         let line = serde_json::to_string(event)
             .map_err(|err| io::Error::new(io::ErrorKind::InvalidData, err))?;
         writer.write_all(line.as_bytes())?;
+        #[cfg(feature = "verif")]
+        rip_kernel::verif::point("log.append.after_body", event.stream_id());
         writer.write_all(b"\n")?;
+        #[cfg(feature = "verif")]
+        rip_kernel::verif::point("log.append.after_nl", event.stream_id());
         writer.flush()?;
+        #[cfg(feature = "verif")]
+        rip_kernel::verif::point_with("log.append.after_flush", || {
+            format!("{} {}", event.stream_id(), event.seq)
+        });
         Ok(())
     }
 
@@ -81,11 +95,15 @@ pub fn write_snapshot(
     fs::create_dir_all(dir)?;
     let path = dir.join(format!("{session_id}.json"));
     let file = File::create(&path)?;
+    #[cfg(feature = "verif")]
+    rip_kernel::verif::point("snapshot.created", session_id);
     let mut writer = BufWriter::new(file);
     let payload = serde_json::to_string_pretty(events)
         .map_err(|err| io::Error::new(io::ErrorKind::InvalidData, err))?;
     writer.write_all(payload.as_bytes())?;
     writer.flush()?;
+    #[cfg(feature = "verif")]
+    rip_kernel::verif::point("snapshot.written", session_id);
     Ok(path)
 }
 
